@@ -20,10 +20,11 @@ Import ListNotations.
 
 Definition sep4 : str := crlf ++ crlf.
 
-(** BODY[HEADER], RFC822.HEADER:  msg[:headerEnd+2], the whole msg if -1 *)
+(** BODY[HEADER], RFC822.HEADER:  msg[:headerEnd+4] (the header section with
+    the blank line that ends it), the whole msg if -1 *)
 Definition header_of (msg : str) : str :=
   match index msg sep4 with
-  | Some i => firstn (i + 2) msg
+  | Some i => firstn (i + 4) msg
   | None => msg
   end.
 
@@ -133,21 +134,20 @@ Definition section_of (rows : list row) (p : list nat) : sec_result :=
 
 Inductive section := SecAll | SecHeader | SecText | SecPath (p : list nat).
 
-(** payload returned for  BODY[sec]<o.n>  ([part] = None: no partial).
-    BODY[] and BODY[HEADER] never look at the partial. *)
+(** payload returned for  BODY[sec]<o.n>  ([part] = None: no partial); every
+    section applies slicePartial to its payload *)
+Definition cut (x : str) (part : option (nat * nat)) : str :=
+  match part with None => x | Some (o, n) => partial_cut x o n end.
+
 Definition fetch_item (raw : str) (rows : list row) (s : section) (part : option (nat * nat)) : option str :=
   match s with
-  | SecAll => Some raw
-  | SecHeader => Some (header_of raw)
-  | SecText =>
-      match part with
-      | None => Some (text_of raw)
-      | Some (o, n) => Some (partial_cut (text_of raw) o n)
-      end
+  | SecAll => Some (cut raw part)
+  | SecHeader => Some (cut (header_of raw) part)
+  | SecText => Some (cut (text_of raw) part)
   | SecPath p =>
       match section_of rows p with
       | SNil => Some []
-      | SLeaf c => match part with None => Some c | Some (o, n) => Some (partial_cut c o n) end
+      | SLeaf c => Some (cut c part)
       | SContainer _ => None
       end
   end.
